@@ -307,6 +307,12 @@ func writeRecordConverters(w *formatting.IndentedWriter, t *dsl.RecordDefinition
 			w.Indented(func() {
 				fmt.Fprintf(w, "it->get_to(value.%s);\n", common.FieldIdentifierName(field.Name))
 			})
+			// to_json leaves out fields that hold no value: an absent field must reset what
+			// `value` held before (readers reuse one object for all items of a stream)
+			w.WriteStringln("} else {")
+			w.Indented(func() {
+				fmt.Fprintf(w, "value.%[1]s = decltype(value.%[1]s){};\n", common.FieldIdentifierName(field.Name))
+			})
 			w.WriteStringln("}")
 		}
 	})
